@@ -68,7 +68,7 @@ fn gen_cfg(rng: &mut Rng, ntypes: usize) -> CtxCfg {
 fn one_history(rng: &mut Rng, ntypes: usize, rep: &mut Report, trace: Option<u64>, maxlen: usize) {
     let nt2 = rng.below(31) as usize;
     let cfgs = vec![gen_cfg(rng, ntypes), gen_cfg(rng, nt2)];
-    let models: Vec<Model> = cfgs.iter().map(Model::new).collect();
+    let mut models: Vec<Model> = cfgs.iter().map(Model::new).collect();
     let long = maxlen >= 1000 && rng.chance(1, 40);
     let len = if long { 300 + rng.below(500) as usize } else { (10 + rng.below(111) as usize).min(maxlen) };
     let mut ops = Vec::with_capacity(len);
@@ -82,7 +82,9 @@ fn one_history(rng: &mut Rng, ntypes: usize, rep: &mut Report, trace: Option<u64
             queries += 1;
         } else {
             let l = pick_letter(rng, &TRAFFIC);
-            ops.push((ci, instantiate(l, rng, &models[ci])));
+            let op = instantiate(l, rng, &models[ci]);
+            models[ci].apply_non_packet(&op);
+            ops.push((ci, op));
             letters.push(l);
         }
     }
